@@ -49,6 +49,7 @@ def _alarm(signum, frame):
 
 
 _QUIET = [False]
+STATUS_DIR = [None]   # per-worker "what am I running" files, so that a dying worker can be attributed to a run
 
 
 def _quiet_worker():
@@ -89,8 +90,12 @@ def _chunk(task):
            "raised_ok": 0, "clock_reads": 0, "sim_clock_s": 0.0, "samples": [], "harness_errors": [],
            "pairs": set(), "digest_acc": hashlib.sha256(), "batch": batch, "extra": Counter()}
     faults = (batch == "fault")
+    status = os.path.join(STATUS_DIR[0], "w%d" % os.getpid()) if STATUS_DIR[0] else None
     for i in range(start, start + count):
         seed = batch_seed(verif_seed, prop, batch, i)
+        if status:
+            with open(status, "w") as f:
+                f.write("%s %d" % (batch, i))
         signal.setitimer(signal.ITIMER_REAL, RUN_TIMEOUT_S)
         try:
             r = m.run_one(prop, seed, faults)
@@ -132,6 +137,9 @@ def _chunk(task):
         if len(agg["samples"]) < 1 and r["trace_key"] is not None and r["viol"] is None:
             agg["samples"].append({"batch": batch, "index": i, "seed": seed, "records": r["records"]})
     agg["digest_acc"] = agg["digest_acc"].hexdigest()[:16]
+    if status:
+        with open(status, "w") as f:
+            f.write("idle")
     return agg
 
 
@@ -252,6 +260,8 @@ def run_check(prop, tier, verif_seed, workers=None, runs_override=None, wall_ove
              "clock_reads": 0, "sim_clock_s": 0.0, "samples": [], "harness_errors": [], "pairs": set(),
              "extra": Counter(), "chunks_skipped_by_wall_cap": 0, "chunk_digests": {}}
     ctx = multiprocessing.get_context("fork")
+    import tempfile
+    STATUS_DIR[0] = tempfile.mkdtemp(prefix="simtt_status_", dir="/dev/shm" if os.path.isdir("/dev/shm") else None)
     deadline = t0 + tcfg["wall"]
     pending = set()
     it = iter(tasks)
@@ -281,7 +291,15 @@ def run_check(prop, tier, verif_seed, workers=None, runs_override=None, wall_ove
                 try:
                     a = fut.result()
                 except Exception as e:
-                    broken = "worker failed: %r" % (e,)
+                    busy = []
+                    for fn in sorted(os.listdir(STATUS_DIR[0])):
+                        try:
+                            st = open(os.path.join(STATUS_DIR[0], fn)).read()
+                        except OSError:
+                            continue
+                        if st != "idle":
+                            busy.append(st)
+                    broken = "worker failed: %r; runs in flight: %s" % (e, busy)
                     continue
                 total["runs"][a["batch"]] += a["runs"]
                 for k in ("ops", "timeouts", "digest_mismatch", "raised_ok", "clock_reads", "sim_clock_s"):
@@ -301,6 +319,9 @@ def run_check(prop, tier, verif_seed, workers=None, runs_override=None, wall_ove
             submit_more()
         total["chunks_skipped_by_wall_cap"] = sum(1 for _ in it)
     search_wall = time.time() - t0
+    import shutil
+    shutil.rmtree(STATUS_DIR[0], ignore_errors=True)
+    STATUS_DIR[0] = None
 
     # 2. violations: group, minimise, confirm in a fresh interpreter, classify
     own = [v for v in total["viols"] if v["violation"]["property"] == prop]
@@ -319,7 +340,7 @@ def run_check(prop, tier, verif_seed, workers=None, runs_override=None, wall_ove
             continue
         if sig in printed:
             continue
-        if len(reported) >= 8:
+        if len(reported) >= 16:
             print("NOTE further distinct violation signature not minimised: %s" % sig)
             continue
         v = min(by_sig[sig], key=lambda x: (len(x["records"]), x["index"]))
